@@ -49,11 +49,13 @@ def documents():
                              E('button')),), False, False)
     # boolean attributes count by presence: the checked members carry non-canonical values on purpose
     radios = [inp(type='radio', name='n'), inp(type='radio', name='n'), inp(type='radio', name='m', checked='yes'),
-              inp(type='radio', name='m'), inp(type='radio'), inp(type='radio', name=''),
-              inp(type='radio', name='k'), inp(checked='false', name='k', type='radio'), inp(type='radio', name='k')]
+              inp(type='radio', name='m'), inp(type='radio'), inp(type='radio', name='')]
     d['radio-groups'] = ((E('html', (), E('body', (), E('form', (), *radios), E('form', (), *radios[:4]),
                                             inp(type='radio', name='n'), inp(type='radio', name='m'),
                                             inp(type='checkbox', indeterminate=''), E('progress'))),), False, False)
+    # a small group of its own (keeps the state search of the big document tractable): checked member with a non-canonical value, attributes in another order
+    d['radio-noncanonical'] = ((E('form', (), inp(type='radio', name='k'), inp(checked='false', name='k', type='radio'), inp(type='radio', name='k'), inp(type='radio', name='j')),
+                                inp(type='radio', name='k')), False, False)
     inner = E('html', (('lang', 'fr'),), E('body', (), E('form', (), inp(type='submit'), inp(type='radio', name='n')), E('p')))
     d['iframe'] = ((E('html', (('lang', 'en'),), E('body', (), E('form', (), inp(type='submit'), inp(type='radio', name='n', checked=''),
                                                                    E('iframe', (), inner)), E('p', (('dir', 'rtl'),), E('span')))),),
